@@ -291,9 +291,13 @@ func Tokenize(source string) ([]Token, error) {
 			lines := strings.Split(match, "\n")
 			lastLinesIndex := len(lines) - 1
 			row += lastLinesIndex
-			ogColumn = startIndex
 			i += len(match)
-			ogI = i - len(lines[lastLinesIndex])
+
+			// Only a comment spanning several lines moves the column base to the start of its last line.
+			if lastLinesIndex > 0 {
+				ogColumn = startIndex
+				ogI = i - len(lines[lastLinesIndex])
+			}
 		} else if matches := regexp.MustCompile(`^\/\/(.*)`).FindStringSubmatch(source[i:]); matches != nil {
 			// Single line comment.
 			token = newToken(matches[1], COMMENT, ogRow, ogColumn)
